@@ -165,7 +165,15 @@ class PubSubRun:
         ch = self.ch
         kind = ch.weighted("ctl.kind", [(5, "sub"), (2, "unsub"), (2, "pause"), (2, "resume")])
         t = self.pick_type("ctl.type")
-        {"sub": a.subscribe, "unsub": a.unsubscribe, "pause": a.pause, "resume": a.resume}[kind](t)
+        if ch.flag("ctl.dest", 1, 6):
+            # the destination fields of a control frame's header carry no meaning; any value may stand there
+            a.ctl_dest = (ch.choose("ctl.dest.mod", [0, 10, 77, 200, 201, 250, -3, 32767]),
+                          ch.choose("ctl.dest.host", [0, 1, 5, 6, 9, -1]))
+            self.res.probes["control_frame_with_destination"] += 1
+        try:
+            {"sub": a.subscribe, "unsub": a.unsubscribe, "pause": a.pause, "resume": a.resume}[kind](t)
+        finally:
+            a.ctl_dest = (0, 0)
         self.t(f"{a.name} {kind} {'ALL' if t == ALL else t}")
 
     def op_noise(self, a: Actor):
